@@ -5,11 +5,11 @@
    comparison of the keyspace pipeline) are reused unchanged.
    ExtrOcamlBasic only; N, Z, positive, nat, byte stay the extracted inductives. *)
 Require Import Base.Bytes Base.GoInt Base.Reply Glob.GlobSpec Glob.GlobModel.
-Require Import Mem.Types Mem.Exec Mem.Server Mem.ListsBg.
+Require Import Mem.Types Mem.Exec Mem.Server Mem.ListsBg Mem.ListsMulti.
 Require Import Resp.RespSpec Resp.ReplyCodec.
 Require Extraction.
 Require Import ExtrOcamlBasic.
 Extraction Language OCaml.
 Extraction "model.ml" byte_of_N byte_to_N gmatch keys_filter
-  z_to_dec parse_int_unbounded atoi64 purge srv_init srv_exec srv_exec_bg
+  z_to_dec parse_int_unbounded atoi64 purge srv_init srv_exec srv_exec_bg srv_exec_multi
   reply_wf encode_cmd encode_reply decode_stream.
